@@ -11,7 +11,7 @@ QUICK_CASES = 700  # generator items in the quick tier (fixed amount of work; BU
 FLOOR = {"quick": 200, "thorough": 200}  # conclusive cases below which a run is inconclusive (the thorough tier is time-budgeted: same floor)
 TIMEOUT = 120
 HASHSEEDS = {"quick": [0, 1, 2, 3], "thorough": list(range(16))}
-REQUIRED_OBS = ["deactivations", "occurrence_phases", "runs_observed", "residue_snapshots", "startup_runs", "shutdown_runs", "closure_instances", "redefined_at_load", "deleted_while_starting", "start_suspension_injected"]
+REQUIRED_OBS = ["deactivations", "occurrence_phases", "runs_observed", "residue_snapshots", "startup_runs", "shutdown_runs", "closure_instances", "redefined_at_load", "deleted_while_starting", "start_suspension_injected", "session_contexts"]
 RULE = (
     "random lifetime histories over two script files: module-level functions and factory-made closures (kept in a list / dict: append, pop, "
     "clear, overwrite, del) carrying any mix of @state_trigger (single name, or value + .old + attribute of one entity plus a second entity), "
@@ -54,6 +54,7 @@ class Model:
         self.closures = {"list": [], "dict": {}}
         self.dead = {}  # gen -> instance
         self.present = {"a.py": True, "b.py": True}
+        self.jup = None
 
     def new_inst(self, name, where):
         r = self.rng
@@ -93,6 +94,8 @@ class Model:
             if self.present[f]:
                 out += [i for i in insts.values() if not i.get("victim")]
         out += self.closures["list"] + list(self.closures["dict"].values())
+        if getattr(self, "jup", None) is not None:
+            out.append(self.jup)
         return out
 
     def render_file(self, fname):
@@ -343,6 +346,24 @@ def run_case(case):
 
     async def main(w):
         await w.quiesce()
+        if rng.random() < 0.3:
+            # a Jupyter-style session context with a decorated function: it lives until the integration is unloaded
+            from custom_components.pyscript.eval import AstEval
+            from custom_components.pyscript.function import Function
+            from custom_components.pyscript.global_ctx import GlobalContext, GlobalContextMgr
+
+            m.gen += 1
+            m.jup = {"gen": m.gen, "name": "jf0", "trigs": sorted(rng.sample(["state", "event", "service"], rng.randint(1, 3))), "extras": [], "where": "jupyter"}
+            gctx = GlobalContext("jupyter_0", global_sym_table={"__name__": "jupyter_0"}, manager=GlobalContextMgr)
+            gctx.set_auto_start(True)
+            GlobalContextMgr.set("jupyter_0", gctx)
+            ast_ = AstEval("jupyter_0", gctx)
+            Function.install_ast_funcs(ast_)
+            ast_.parse("\n".join(render_inst(m.jup)) + "\n", filename="jupyter_0")
+            await ast_.eval()
+            await w.quiesce()
+            note_new(m.jup)
+            obs["session_contexts"] += 1
         for f_ in m.files:
             for inst in m.files[f_].values():
                 note_new(inst)
@@ -427,6 +448,7 @@ def run_case(case):
                     note_dead(inst)
                 m.present = {"a.py": False, "b.py": False}
                 m.closures = {"list": [], "dict": {}}
+                m.jup = None
                 await w.unload()
             await w.quiesce()
             gc.collect()
